@@ -75,7 +75,8 @@ def sweep_task(task):
         gc, gcomp, gb, gpaths = run_at(G)
     except H.CompilerError as e:
         res['status'] = 'rejected'
-        res['harness_errors'].append('template %s does not compile: %s' % (case.name, e))
+        if 'random' not in case.name:       # seeded random programs may contain a constant division by zero etc.
+            res['harness_errors'].append('template %s does not compile: %s' % (case.name, e))
         return res
     gcases = []
     for p in gpaths:
@@ -202,9 +203,9 @@ def gsize(c):
     if c.name in ('alloc/vla-two',):
         return 10
     if c.name.startswith('alloc/vla-') and c.name not in ('alloc/vla-then-array', 'alloc/vla-then-call'):
-        return 18
+        return min(18, 100 // c.word)       # every feasible size in bytes is a path (cap 120)
     if c.name.startswith('fault/vla-len'):
-        return 18
+        return min(18, 100 // c.word)
     return 56
 
 
